@@ -26,6 +26,7 @@ def parseOp (prim : String) (s : String) : Option SOp :=
     | "trywait", none => some .trywait
     | "set", none => some .set
     | "reset", none => some .reset
+    | "destroy", none => some .destroy
     | "start", some a => a.toNat?.bind fun j => if j > 0 ∧ j < 8 then some (.start j) else none
     | "join", some a => a.toNat?.bind fun j => if j > 0 ∧ j < 8 then some (.join j) else none
     | _, _ => none
